@@ -106,6 +106,113 @@ def scenario_of(events, idx):
     return events[j].get("seed"), idx - 1 - j, j
 
 
+# ---- behaviour coverage: what the validated traces actually contained (vacuity guard)
+NEED = {
+    "C01": ["recv:result", "recv:search", "recv:none", "ret:val", "next:item", "overlap:two-waiting", "orphan"],
+    "C04": ["close:eof", "close:reset", "close:wfail", "garbage", "exit:exitErr", "exit:exitOk", "ret:err", "next:closed",
+            "ret:err-at-once", "unbind", "fault-while-waiting"],
+    "C05": ["alloc", "alloc:wrap", "recv:result"],
+    "C10": ["next:item", "next:done", "next:noop", "finish:early", "finish:full"],
+    "C12": ["ret:timeout", "next:timeout", "scrub", "late-reply", "ok-after-timeout", "timeout-while-blocked",
+            "timeout-before-dequeue", "item-then-timeout"],
+    "C13": ["quiet", "abandon", "abandon:in-flight", "finish:early", "scrub", "ret:timeout", "caller-gone"],
+}
+
+
+def behaviour_coverage(events, cov):
+    """One pass over a validated trace: count the behaviours the properties speak about."""
+    ids, waiting, timed_out, blocked, got_item, unsent = {}, set(), set(), False, set(), set()
+    pend_o = None
+    faulted = False
+    for e in events:
+        ev = e["ev"]
+        if ev == "Reset":
+            ids, waiting, timed_out, blocked, got_item, unsent = {}, set(), set(), False, set(), set()
+            faulted = False
+        elif ev == "Call":
+            pend_o = e["o"]
+            if e["k"] == "unbind":
+                cov["unbind"] += 1
+        elif ev == "IdAlloc":
+            cov["alloc"] += 1
+            if e["id"] <= e["lastb"]:
+                cov["alloc:wrap"] += 1
+            elif e["id"] > e["lastb"] + 1:
+                cov["alloc:skip"] += 1
+            if pend_o is not None:
+                ids[pend_o] = e["id"]
+                if waiting:
+                    cov["overlap:two-waiting"] += 1
+                waiting.add(pend_o)
+                unsent.add(e["id"])
+                pend_o = None
+        elif ev == "Ret":
+            cov["ret:" + e["r"]] += 1
+            o = e["o"]
+            if e["r"] == "err" and o in waiting and ids.get(o) in unsent and faulted:
+                cov["ret:err-at-once"] += 1
+            waiting.discard(o)
+            if e["r"] == "timeout":
+                timed_out.add(ids.get(o))
+                if blocked:
+                    cov["timeout-while-blocked"] += 1
+                if ids.get(o) in unsent:
+                    cov["timeout-before-dequeue"] += 1
+            if e["r"] == "val" and timed_out:
+                cov["ok-after-timeout"] += 1
+        elif ev == "RetNext":
+            cov["next:" + e["r"]] += 1
+            if e["r"] == "item":
+                got_item.add(e["o"])
+            if e["r"] == "timeout":
+                timed_out.add(ids.get(e["o"]))
+                if e["o"] in got_item:
+                    cov["item-then-timeout"] += 1
+        elif ev == "Finish":
+            cov["finish:early" if e.get("rc") == 88 else "finish:full"] += 1
+        elif ev == "DrvOp":
+            unsent.discard(e["id"])
+            blocked = False
+            if not e.get("ok", True):
+                cov["send-failed"] += 1
+            if e["k"] == "abandon":
+                cov["abandon"] += 1
+                if e["tg"] in [ids.get(o) for o in waiting]:
+                    cov["abandon:in-flight"] += 1
+        elif ev == "DrvRecv":
+            cov["recv:" + str(e["k"])] += 1
+            if e["k"] == "none" and e["id"] in timed_out:
+                cov["late-reply"] += 1
+        elif ev == "DrvScrub":
+            cov["scrub"] += 1
+        elif ev == "IdRelease" and e.get("site") == "caller-gone":
+            cov["caller-gone"] += 1
+        elif ev == "WBlocked":
+            blocked = True
+            cov["blocked"] += 1
+        elif ev in ("SrvResume",):
+            blocked = False
+        elif ev == "SrvClose":
+            cov["close:" + e["how"]] += 1
+            blocked = False
+            if e["how"] != "eof" or waiting:
+                faulted = True
+            if waiting and e["how"] in ("eof", "reset"):
+                cov["fault-while-waiting"] += 1
+        elif ev == "SrvGarbage":
+            cov["garbage"] += 1
+            faulted = True
+            blocked = False
+        elif ev == "SrvOrphan":
+            cov["orphan"] += 1
+        elif ev == "DrvExit":
+            cov["exit:" + e["how"]] += 1
+        elif ev == "Quiet":
+            cov["quiet"] += 1
+        elif ev in ("Hang", "Panic"):
+            cov[ev.lower()] += 1
+
+
 def gen_traces(chk, profile_counts, first_seed):
     """Run conn-run for each (profile, count); returns list of (profile, path, report)."""
     out = []
@@ -173,6 +280,8 @@ def lane_into(chk, pid, mc, profiles, rule, selftests, scripts=None):
                         "distinct scripts executed against the real code and validated like any other trace" % scripts)
     total_events = 0
     clean_first = True
+    import collections
+    cov = collections.Counter()
     for tn, (prof, path, rep, seed0) in enumerate(traces):
         chk.report(rep, "conn-run %s" % prof)
         n, diags, res = validate(chk, path)
@@ -180,6 +289,7 @@ def lane_into(chk, pid, mc, profiles, rule, selftests, scripts=None):
         nscen = rep["evaluations"]
         chk.traces += nscen
         events = [json.loads(l) for l in open(path)]
+        behaviour_coverage(events, cov)
         if tn == 0 and diags:
             clean_first = False
         owned, foreign = {}, {}
@@ -202,6 +312,11 @@ def lane_into(chk, pid, mc, profiles, rule, selftests, scripts=None):
             chk.notes.append("difference owned by %s (not this property): %s x%d, first at profile=%s seed=%s event=%d"
                              % (_own_str(owner_of(tag, events, idxs[0])), tag, len(idxs), prof, sd, k))
     chk.extra["events_validated"] = total_events
+    chk.extra["behaviour_coverage"] = dict(sorted(cov.items()))
+    missing = [k for k in NEED.get(pid, []) if cov[k] == 0]
+    if missing and not chk.problems and scripts:
+        # (without the script traces - C10's use of the lane - the lane is an addition, not the property's own evidence)
+        chk.tool_error("the validated traces never contained: %s (vacuous for %s)" % (", ".join(missing), pid))
     chk.rule.append(rule)
     # binding self-tests on the first trace
     if traces:
